@@ -35,6 +35,7 @@ def check(run: Run, prog: Program, model: Model, tier: str) -> None:
         "on that path or be caught and converted. Redeclaration must be rejected in every state. For every state "
         "holding a fixed payload and every refinement that sets a prop the validator checks, a rejecting branch "
         "must exist whose predicate covers the validator's failing predicate for that prop.")
+    run.explanation += " VALCHK-KIND: every kind the declaration admits for the fixed value (isinstance guards of the refinement, minus excluded kinds) is handed to the validator as declared and validated value; no path may build a TypeValidationError. Format specs ({x:d}) are partial operations under the operand's kind."
     run.rule_text = ("obligations: (type, state, shape) transitions for the escape rule; (type, state, shape) with "
                      "overlap for REDECLARE; (type, prop, validator row) for VALCHK; non-trivial = transitions with at "
                      "least one partial operation or value predicate")
@@ -100,12 +101,14 @@ def check(run: Run, prog: Program, model: Model, tier: str) -> None:
                     run.holds("REDECLARE", c2, site, f"already declared {sorted(overlap)}: rejected on all {len(outs)} paths",
                               nontrivial=True)
         _valchk(run, prog, model, st, ta, tier)
+        _valchk_kind(run, prog, model, st)
     run.analysed.update({"automaton_states": nstates, "automaton_transitions": ntrans, "types": len(types)})
     run.extra["states"] = nstates
     run.extra["transitions"] = ntrans
     run.floor("ONLY-DECLARATIONERROR", 300)
     run.floor("REDECLARE", 100)
     run.floor("VALCHK", 12)
+    run.floor("VALCHK-KIND", 4)
 
 
 from ..vtable import LOSSY, lossy_image as _lossy_image  # noqa: E402
@@ -122,6 +125,46 @@ def _walk(t: Any) -> Any:
                     if isinstance(x, V):
                         yield from _walk(x)
 
+
+
+def _valchk_kind(run: Run, prog: Program, model: Model, st: SchemaType) -> None:
+    """VALCHK-KIND: "a fixed value conforms to the schema itself" starts with its kind.  The kinds the declaration
+    admits for the fixed value (read off its isinstance guards, minus the kinds it excludes) are handed to the
+    validator as both the declared and the validated value: no path may report a type error."""
+    from ..automaton import admitted_kinds, excluded_kinds
+    from ..engine import Interp
+    from ..visits import make_visitor
+    if "value" not in st.props or not st.hook:
+        return
+    adm = admitted_kinds(prog, model, st, "value")
+    f = model.visitors["Validator"].lookup(st.hook)
+    c = f"{st.name}(value): every admitted kind passes the validator's type check"
+    if adm is None or f is None:
+        run.undecided("VALCHK-KIND", c, st.cls.methods["__call__"].loc if "__call__" in st.cls.methods else "", "admitted kinds not derivable from the guards")
+        return
+    exc = excluded_kinds(prog, model, st, "value")
+    bad: List[str] = []
+    for k in sorted(adm):
+        it = Interp(prog, model, unroll=1, max_depth=6)
+
+        def run1(i: Interp, k: str = k) -> V:
+            v = make_visitor(i, "Validator")
+            w = Sym("props.value", k, ("prop", "value"))
+            i.notkinds[w.uid] = list(exc)
+            sc = i.make_schema(st, ("value",), {"value": w})
+            return i.call_function(f, [sc], {"value": w, "path": Sym("path", "PathHolder", ("param", "path"))}, self_val=v)
+        for p in it.run_paths(run1):
+            for e in p.events:
+                if e.kind == "construct" and e.data.get("cls") is not None and e.data["cls"].name == "TypeValidationError":
+                    last = p.facts[:e.nfacts][-1] if p.facts[:e.nfacts] else None
+                    bad.append(f"a declared {k} value is reported as a type error when "
+                               f"{('' if last and last[2] else 'not ') + (last[0][:60] if last else '?')}")
+    if bad:
+        run.violated("VALCHK-KIND", c, f.loc, "; ".join(sorted(set(bad)))[:300],
+                     witness=f"s = schema.{st.facade_name or st.name}(<value of an admitted kind, e.g. True for an int>); "
+                             "validate(s, s.props.value) has errors")
+    else:
+        run.holds("VALCHK-KIND", c, f.loc, f"admitted {sorted(adm)}" + (f" minus {sorted(exc)}" if exc else ""), nontrivial=True)
 
 def _valchk(run: Run, prog: Program, model: Model, st: SchemaType, ta: TypeAutomaton, tier: str) -> None:
     payload = PAYLOAD.get(st.name, "value")
@@ -326,6 +369,15 @@ S = "d42/declaration/types/_str_schema.py"
 I = "d42/declaration/types/_int_schema.py"
 L = "d42/declaration/types/_list_schema.py"
 MUTANTS = [
+    {"name": "len error helpers use :d and the exact-len check runs before the type check (seeded C10-I)", "rule": "ONLY-DECLARATIONERROR",
+     "edits": [("d42/declaration/errors/__init__.py", "    message = f\"`{schema!r}` len must be equal to {len(value)}, {length} given\"", "    message = f\"`{schema!r}` len must be equal to {len(value):d}, {length:d} given\""),
+               ("d42/declaration/types/_str_schema.py", "        if not isinstance(length, int):\n            raise make_invalid_type_error(self, length, (int,))\n\n        if (props.value is not Nil) and (len(props.value) != length):\n            raise make_incorrect_len_error(self, props.value, length)\n",
+                "        if props.value is not Nil:\n            if len(props.value) != length:\n                raise make_incorrect_len_error(self, props.value, length)\n        elif not isinstance(length, int):\n            raise make_invalid_type_error(self, length, (int,))\n")]},
+    {"name": "neutral: len error helper formats its int arguments with :d (type check still first)", "expect": "SILENT",
+     "edits": [("d42/declaration/errors/__init__.py", "    message = f\"`{schema!r}` len must be equal to {len(value)}, {length} given\"", "    message = f\"`{schema!r}` len must be equal to {len(value):d}, {length:d} given\"")]},
+    {"name": "int validator refuses bools although the declaration admits them as a fixed value (seeded C10-J)", "rule": "VALCHK-KIND",
+     "edits": [("d42/validation/_validator.py", "        if error := self._validate_type(path, value, int):\n            return result.add_error(error)\n\n        if schema.props.value is not Nil:\n            if error := self._validate_value(path, value, schema.props.value):\n                return result.add_error(error)\n\n        if schema.props.min is not Nil:",
+                "        if isinstance(value, bool):\n            return result.add_error(TypeValidationError(path, value, int))\n        if error := self._validate_type(path, value, int):\n            return result.add_error(error)\n\n        if schema.props.value is not Nil:\n            if error := self._validate_value(path, value, schema.props.value):\n                return result.add_error(error)\n\n        if schema.props.min is not Nil:")]},
     {"name": "a declared opposite bound shadows the check against the fixed value", "rule": "VALCHK",
      "edits": [(I, "        if (self.props.value is not Nil) and (value > self.props.value):\n            raise make_incorrect_min_error(self, self.props.value, value)\n", "        upper = self.props.max if (self.props.max is not Nil) else self.props.value\n        if (upper is not Nil) and (value > upper):\n            raise make_incorrect_min_error(self, upper, value)\n"),
                (I, "        if (self.props.value is not Nil) and (value < self.props.value):\n            raise make_incorrect_max_error(self, self.props.value, value)\n", "        lower = self.props.min if (self.props.min is not Nil) else self.props.value\n        if (lower is not Nil) and (value < lower):\n            raise make_incorrect_max_error(self, lower, value)\n")]},
